@@ -464,6 +464,7 @@ def runOp (s : Sexp) : String :=
        | some b, some mx => s!"ok {entriesPresent b mx}"
        | _, _ => "bad-op")
   | .list (.atom "gcptrs" :: _) => "unsupported"
+  | .list (.atom "jdescdeep" :: _) => "unsupported"
   | .list (.atom "unwrap" :: _) => "unsupported"
   | .list [.atom "jalias"] => "unsupported"
   | .list [.atom "regselfhist"] => "unsupported"
